@@ -29,7 +29,10 @@ func main() {
 		Corpus:    corpus,
 		VM:        true,
 		Isolate:   true,
-		Extra:     func(w *lib.Writer, tier string, seed uint64) { faultEnumeration(w, tier, seed); apiProtected(w, tier, seed) },
+		Extra: func(w *lib.Writer, tier string, seed uint64) {
+			faultEnumeration(w, tier, seed)
+			apiProtected(w, tier, seed)
+		},
 		KF: func(uses map[string]int, src string) []string {
 			var k []string
 			if uses["xpcall"] > 0 || uses["closure-after-xpcall-error"] > 0 {
@@ -55,7 +58,6 @@ var corpus = []string{
 	`emit(pcall(function() assert(false) end)); emit(pcall(function() assert(nil, "msg") end)); emit(pcall(assert, 1, 2, 3)); emit(select('#', pcall(function() assert(false) end)))`,
 	`local function thrower() error("x") end; for i = 1, 3 do local ok, e = pcall(thrower); emit(i, ok, e) end; local n = 0; while n < 3 do n = n + 1; pcall(error, n) end; emit(n)`,
 }
-
 
 // faultEnumeration: (a) host-call faults: for generated programs the k-th emit call raises, for every
 // k up to the fault-free number of emit calls (cap per tier) — compared exactly with the evaluator
